@@ -183,6 +183,9 @@ func (s *Sim) CatchUpLagging() bool {
 					continue
 				}
 				pm := &PoolMsg{ID: -1, From: peer.ID, Msg: &cs.VoteMessage{Vote: pc}, Height: h, Round: pc.Round, Kind: "precommit"}
+				if s.DropFilter != nil && s.DropFilter(pm, n) {
+					continue // scripted loss covers the catch-up path as well
+				}
 				s.Mon.OnDeliver(n, pm)
 				if p, stack := n.CS.VerifHandlePeerMsg(pm.Msg, fmt.Sprintf("peer%d", peer.ID)); p != nil {
 					s.nodePanic(n, p, stack, "catch-up precommit")
